@@ -121,6 +121,58 @@ fn at_mut<'a>(v: &'a mut Value, path: &[String]) -> Option<&'a mut Value> {
     Some(cur)
 }
 
+/// type text with the variables bound by `forall` renamed in order of first occurrence
+fn alpha_normal(t: &str) -> String {
+    let is_id = |c: char| c.is_alphanumeric() || c == '_' || c == '\'';
+    // tokens: identifiers and single other characters
+    let mut toks: Vec<String> = vec![];
+    let mut cur = String::new();
+    for c in t.chars() {
+        if is_id(c) {
+            cur.push(c);
+        } else {
+            if !cur.is_empty() {
+                toks.push(std::mem::take(&mut cur));
+            }
+            toks.push(c.to_string());
+        }
+    }
+    if !cur.is_empty() {
+        toks.push(cur);
+    }
+    let mut bound: Vec<String> = vec![];
+    let mut i = 0;
+    while i < toks.len() {
+        if toks[i] == "forall" {
+            i += 1;
+            while i < toks.len() && toks[i] != "." {
+                if toks[i].chars().all(is_id) && !toks[i].trim().is_empty() && !bound.contains(&toks[i]) {
+                    bound.push(toks[i].clone());
+                }
+                i += 1;
+            }
+        }
+        i += 1;
+    }
+    let mut order: Vec<String> = vec![];
+    toks.iter()
+        .map(|tk| {
+            if bound.contains(tk) {
+                let k = match order.iter().position(|x| x == tk) {
+                    Some(k) => k,
+                    None => {
+                        order.push(tk.clone());
+                        order.len() - 1
+                    }
+                };
+                format!("?{}", k)
+            } else {
+                tk.clone()
+            }
+        })
+        .collect()
+}
+
 impl Property for C12 {
     fn id(&self) -> &'static str {
         "C12"
@@ -315,12 +367,23 @@ impl Property for C12 {
             return j;
         }
         let src_out: Outcome = serde_json::from_value(v["src_out"].clone()).unwrap();
+        if kind == "roundtrip" && is_front_end_failure(&src_out).is_some() {
+            // run_expr checks against an expected type (a hole), compile_to_bytecode checks without
+            // one: a program that only the former rejects (record-field generalisation, judged by
+            // C03) has no source result to compare the bytecode with
+            j.classes.push("rejected_by_front_end".into());
+            j.verdict = Verdict::Inconclusive("generated program rejected when run from source".into());
+            return j;
+        }
         if kind == "roundtrip" {
             for route in ["same", "fresh", "imported"] {
                 let o: Outcome = serde_json::from_value(v[route].clone()).unwrap();
                 let log_key = format!("{}_log", route);
                 let same_out = match (&src_out, &o) {
-                    (Outcome::Value { val: a, ty: ta }, Outcome::Value { val: b, ty: tb }) => same_val(a, b) && (route == "imported" || ta == tb),
+                    // (the two checking modes may name quantified variables differently: compared up to renaming)
+                    (Outcome::Value { val: a, ty: ta }, Outcome::Value { val: b, ty: tb }) => {
+                        same_val(a, b) && (route == "imported" || alpha_normal(ta) == alpha_normal(tb))
+                    }
                     (a, b) => a == b,
                 };
                 // failures while importing are reported through the macro expander: compare class loosely
